@@ -22,6 +22,13 @@ CHECKS = {
             "Tolerance 1e-8*(|y|*||J^-1|| + |x|) + A*||J^-1|| with J from float64 autograd / one-sided FD at special points; rows "
             "with ||J^-1|| > 1e6, saturating chains, or conditioner outputs beyond |10| are inconclusive (counted).",
             "DESIGN.md 3/C02"),
+    "C05": ("Hypothesis-generated distributions/parameters/event shapes/context rows; exact summation (Bernoulli), adaptive "
+            "Gauss-Legendre quadrature with knot-aligned panels in 1-2 D, closed-form differentials, KS tests of samples",
+            "Exploration: every density-returning class: total mass 1 (exact sum / quadrature with an error estimate / volume "
+            "identity / tensor rule for the Lotka-Volterra box), samples follow the density per context row (KS at p=1e-9, "
+            "binomial bands), finite density at every sample, mean() shape and value or NoMeanException.",
+            "Quadrature resolves <= 2 dimensions; larger event shapes only against the closed-form normal density; statistical "
+            "power ~1 % in KS distance at n=20000.", "DESIGN.md 3/C05"),
     "C06": ("exhaustive enumeration of MADE architectures (both copies), each decided for all weights by a sign argument "
             "(identity activation + strictly positive weights => Jacobian entry > 0 iff an unmasked path exists); Hypothesis for "
             "larger sizes, bit-identity under input perturbation with signed weights",
